@@ -9,6 +9,7 @@ pub mod trace {
 //@include air/dynamic.rs
 //@include air/public_memory.rs
 //@include air/diluted.rs
+//@include air/diluted_lemma.rs
 //@include air/periodic.rs
 pub mod layout {
 //@include air/layout_mod.rs
